@@ -251,7 +251,7 @@ class PeeweeStorage(AbstractStorage):
         # These events are updates which need to be applied one by one
         events_updates = [e for e in events if e.id is not None]
         for e in events_updates:
-            self.insert_one(bucket_id, e)
+            self.replace(bucket_id, e.id, e)
 
         # These events can be inserted with insert_many
         events_dictlist = [
